@@ -126,3 +126,39 @@ def snap_small(V):
     V = np.array(V, dtype=float)
     V[np.abs(V) < 1e-7 * float(np.abs(V).max())] = 0.0
     return V
+
+
+def with_layout(a, layout):
+    """The same values in another memory layout: what a caller gets from a transpose, a column-wise assembly or a
+    slice of a larger array.  Values, dtype and shape are unchanged."""
+    a = np.asarray(a)
+    if a.dtype.kind not in 'iufb':
+        return a
+    if layout == 'F' and a.ndim >= 2:
+        return np.asfortranarray(a)
+    if layout == 'strided' and a.ndim >= 1 and a.size:
+        big = np.zeros(a.shape[:-1] + (2 * a.shape[-1],), dtype=a.dtype)
+        big[..., ::2] = a
+        return big[..., ::2]
+    if layout == 'T' and a.ndim >= 2:
+        return np.ascontiguousarray(a.T).T
+    return a
+
+
+def cube_rotations():
+    """The 23 proper rotations of the cube other than the identity (signed permutation matrices with det +1):
+    cells rotated by one of them keep exact zeros, e.g. a LAMMPS-oriented cell turned by 180 degrees about x is still
+    lower triangular but has two negative diagonal terms."""
+    import itertools
+    out = []
+    for perm in itertools.permutations(range(3)):
+        for signs in itertools.product([1.0, -1.0], repeat=3):
+            R = np.zeros((3, 3))
+            for i, (p, sg) in enumerate(zip(perm, signs)):
+                R[i, p] = sg
+            if abs(np.linalg.det(R) - 1.0) < 1e-12 and not np.array_equal(R, np.eye(3)):
+                out.append(R)
+    return out
+
+
+CUBE_ROTATIONS = cube_rotations()
